@@ -360,4 +360,45 @@ void h_strtoul_edge(void) {
 	VF_CANARY();
 }
 
+/* overflow boundary of the decimal parsers: [sign] + {MAX/10 - 1, MAX/10, MAX/10 + 1} + two arbitrary characters.
+ * The prefix is concrete (so the multiply-by-ten chain folds), the last two characters are symbolic: this covers every
+ * numeral in the neighbourhood of the largest / smallest representable value, e.g. 18446744073709551615 and ...616. */
+static void edge_one(const char *prefix, int sign, int uns, unsigned char c1, unsigned char c2, int k) {
+	unsigned char txt[32]; size_t n = 0, i;
+	if(sign == 1) txt[n++] = '+'; else if(sign == 2) txt[n++] = '-';
+	for(i = 0; prefix[i]; i++) txt[n++] = (unsigned char)prefix[i];
+	if(k >= 1) txt[n++] = c1;
+	if(k >= 2) txt[n++] = c2;
+	const char *end = (const char *)txt + n;
+	struct ref_num r = ref_parse(txt, n, !uns);
+	if(uns) {
+		uintmax_t out = 0x5a5a5a5a;
+		enum asn_strtox_result_e rc = asn_strtoumax_lim((const char *)txt, &end, &out);
+		if(r.cls == ASN_STRTOX_ERROR_INVAL || r.cls == ASN_STRTOX_EXPECT_MORE) __CPROVER_assert(rc == r.cls, "C16: sign handling at the boundary");
+		else if(r.mag > (unsigned __int128)UINT64_MAX) __CPROVER_assert(rc == ASN_STRTOX_ERROR_RANGE, "C16: a numeral above UINTMAX_MAX is ERROR_RANGE");
+		else __CPROVER_assert(rc == r.cls && out == (uint64_t)r.mag && end == (const char *)txt + r.stop, "C16: every numeral up to UINTMAX_MAX is accepted with its value");
+	} else {
+		intmax_t out = 0x5a5a5a5a;
+		unsigned __int128 lim = r.neg ? ((unsigned __int128)1 << 63) : (((unsigned __int128)1 << 63) - 1);
+		enum asn_strtox_result_e rc = asn_strtoimax_lim((const char *)txt, &end, &out);
+		if(r.cls == ASN_STRTOX_ERROR_INVAL || r.cls == ASN_STRTOX_EXPECT_MORE) __CPROVER_assert(rc == r.cls, "C16: sign handling at the boundary");
+		else if(r.mag > lim) __CPROVER_assert(rc == ASN_STRTOX_ERROR_RANGE, "C16: a numeral outside intmax_t is ERROR_RANGE");
+		else __CPROVER_assert(rc == r.cls && out == (r.neg ? (intmax_t)(0 - (uint64_t)r.mag) : (intmax_t)(uint64_t)r.mag) && end == (const char *)txt + r.stop, "C16: every numeral within intmax_t is accepted with its value");
+	}
+}
+void h_strto_edge(void) {
+	VF_SCALAR(unsigned char, c1); VF_SCALAR(unsigned char, c2);
+	static const char *const up[3] = { "1844674407370955160", "1844674407370955161", "1844674407370955162" };
+	static const char *const sp[3] = { "922337203685477579", "922337203685477580", "922337203685477581" };
+	int which, sign, k;
+	for(which = 0; which < 3; which++) for(sign = 0; sign < 3; sign++) for(k = 0; k < 3; k++) {
+#ifdef VF_EDGE_UNSIGNED
+		edge_one(up[which], sign, 1, c1, c2, k);
+#else
+		edge_one(sp[which], sign, 0, c1, c2, k);
+#endif
+	}
+	VF_CANARY();
+}
+
 VF_NATIVE_MAIN
